@@ -239,6 +239,25 @@ func (vc *VC) specLit(env *Env, x *SLit) (Term, types.Type) {
 }
 
 func (vc *VC) specIdent(env *Env, name string) (Term, types.Type) {
+	if env.fr != nil && env.at != nil {
+		// inside a loop invariant a reassigned parameter means its current value (the header's phi)
+		for _, instr := range env.at.Instrs {
+			phi, ok := instr.(*ssa.Phi)
+			if !ok {
+				break
+			}
+			if phi.Comment == name {
+				if env.phiOverride != nil {
+					if t, ok := env.phiOverride[phi]; ok {
+						return t, phi.Type()
+					}
+				}
+				if t, ok := env.fr.vals[phi]; ok {
+					return t, phi.Type()
+				}
+			}
+		}
+	}
 	if b, ok := env.names[name]; ok {
 		return b.T, b.Ty
 	}
